@@ -75,11 +75,8 @@ pub fn parse<'a>(scanner: &mut Scanner<'a>) -> ParseResult<SmallMap<&'a str, Vec
         while let Some(p) = read_path(scanner)? {
             deps.push(p);
         }
-        // A target may be named by several entries; its prerequisites accumulate.
-        match result.iter_mut().find(|(t, _)| *t == target) {
-            Some((_, existing)) => existing.extend(deps),
-            None => result.insert(target, deps),
-        }
+        // A target may be named by several entries; every entry is kept, in file order.
+        result.push(target, deps);
     }
     scanner.expect('\0')?;
 
